@@ -38,8 +38,12 @@ def run(ctx):
   from . import c16
   c16.rule_isolated(ctx, T.bodies(ctx.repo), "R-C06-OWN", lambda w: w.split(":")[1].split(".")[0] in C06_CHECKS)
   ctx.expect("R-C06-OWN", 8, "the eight closed-form checks")
+  # the subgroup test asks whether Multiply(p, self.n) is the point at infinity: that is the order test only if Multiply returns the exact multiple n * p
+  # (a multiplier reduced modulo the order answers infinity for every point) - shared with C11
+  from . import c11
+  got = ctx.borrow(c11.rule_scalar, "R-C06-PRED", lambda r: r.where.endswith("EcCurve.Multiply"))
   ctx.expect("R-C06-KEYGEN", 5, "generator emulation clauses")
-  ctx.expect("R-C06-PRED", 11, "eleven predicates")
+  ctx.expect("R-C06-PRED", 13, "eleven predicates + the exact scalar multiple behind the subgroup test")
   ctx.expect("R-C06-TABLES", 3, "two prime tables + F4")
   ctx.expect("R-C06-DLOG-LOOP", 2, "membership loop + residue table")
   ctx.expect("R-C06-DENY-FORMAT", 2, "check side + storage side")
